@@ -18,7 +18,7 @@ import sys
 
 from common import cps
 
-FLAVORS = ['plain', 'reprov', 'strov']
+FLAVORS = ['plain', 'reprov', 'strov', 'ducky']
 BASES = {'list': list, 'tuple': tuple, 'set': set, 'frozenset': frozenset, 'dict': dict, 'str': str,
          'bytes': bytes, 'int': int, 'float': float}
 _classes = {}
@@ -32,6 +32,12 @@ def subclass(base, flavor):
             ns['__repr__'] = lambda self: '<REPR-OVERRIDE>'
         elif flavor == 'strov':
             ns['__str__'] = lambda self: '<STR-OVERRIDE>'
+        elif flavor == 'ducky':
+            # attributes other kinds of values are recognised by (namedtuple, struct sequence, enum, dataclass
+            # look-alikes) - but never all of those a recogniser asks for: still a plain subclass instance
+            ns.update({'__slots__': (), '_fields': ('id', 'name'), '_make': classmethod(lambda cls, it: cls(it)),
+                       '_asdict': lambda self: {}, 'n_fields': 2, 'n_sequence_fields': 2,
+                       'name': 'NAME', 'value': 'VALUE', '__match_args__': ('id',)})
         name = 'My%s_%s' % (base.capitalize(), flavor)
         cls = type(name, (BASES[base],), ns)
         cls.__module__ = 'valgen'
